@@ -307,6 +307,13 @@ func genTLSTokens(repo string) (string, error) {
 		ok = false
 	}
 	fmt.Fprintf(&b, "Definition tls_ca_pool_cached : bool := %v.\n", poolCached)
+	ctxsBefore, inspBefore, uok, unote := updateBeforeManagerSwitch(repo)
+	if !uok {
+		ok = false
+	}
+	fmt.Fprintf(&b, "(* %s *)\n", unote)
+	fmt.Fprintf(&b, "Definition tls_update_ctxs_before_manager : bool := %v.\n", ctxsBefore)
+	fmt.Fprintf(&b, "Definition tls_update_insp_before_manager : bool := %v.\n", inspBefore)
 	resumeVerifies, rok, rnote := resumeVerifiesSwitch(repo)
 	if !rok {
 		ok = false
@@ -325,6 +332,116 @@ func exprString(e ast.Expr) string {
 		return exprString(x.X) + "." + x.Sel.Name
 	}
 	return "?"
+}
+
+// updateBeforeManagerSwitch: statement ORDER in the update branch of connHandler.AddOrUpdateListener.  The listener fields
+// NewTLSServerContextManager reads (cfg.<F> in its body: Inspector, FilterChains, Name) are collected from its source; in the
+// update branch the assignments rawConfig.FilterChains[0].TLS* = ... and rawConfig.Inspector = ... must be statements of the
+// SAME block as, and BEFORE, the statement that calls mtls.NewTLSServerContextManager(rawConfig).
+func updateBeforeManagerSwitch(repo string) (ctxsBefore, inspBefore, ok bool, note string) {
+	_, mf, err := ParseGoFile(repo, "pkg/mtls/tls_context_manager.go")
+	if err != nil {
+		return false, false, false, "tls_context_manager.go not parsed"
+	}
+	nd := FindFunc(mf, "", "NewTLSServerContextManager")
+	if nd == nil || len(nd.Type.Params.List) != 1 || len(nd.Type.Params.List[0].Names) != 1 {
+		return false, false, false, "NewTLSServerContextManager not found"
+	}
+	pn := nd.Type.Params.List[0].Names[0].Name
+	reads := map[string]bool{}
+	ast.Inspect(nd.Body, func(n ast.Node) bool {
+		if sel, iss := n.(*ast.SelectorExpr); iss {
+			if id, isi := sel.X.(*ast.Ident); isi && id.Name == pn {
+				reads[sel.Sel.Name] = true
+			}
+		}
+		return true
+	})
+	var rs []string
+	ok = true
+	for f := range reads {
+		rs = append(rs, f)
+		if f != "Inspector" && f != "FilterChains" && f != "Name" {
+			ok = false // the manager reads a listener field the model does not know
+		}
+	}
+	sort.Strings(rs)
+	_, hf, err := ParseGoFile(repo, "pkg/server/handler.go")
+	if err != nil {
+		return false, false, false, "handler.go not parsed"
+	}
+	fd := FindFunc(hf, "connHandler", "AddOrUpdateListener")
+	if fd == nil {
+		return false, false, false, "AddOrUpdateListener not found"
+	}
+	isCall := func(st ast.Stmt) bool {
+		found := false
+		ast.Inspect(st, func(n ast.Node) bool {
+			if c, isc := n.(*ast.CallExpr); isc && exprFull(c.Fun) == "mtls.NewTLSServerContextManager" && len(c.Args) == 1 && exprFull(c.Args[0]) == "rawConfig" {
+				found = true
+			}
+			return true
+		})
+		return found
+	}
+	var block *ast.BlockStmt
+	callIdx := -1
+	ast.Inspect(fd.Body, func(n ast.Node) bool {
+		bs, isb := n.(*ast.BlockStmt)
+		if !isb {
+			return true
+		}
+		for i, st := range bs.List {
+			if _, isa := st.(*ast.AssignStmt); isa && isCall(st) {
+				block, callIdx = bs, i
+			}
+		}
+		return true
+	})
+	if block == nil {
+		return false, false, false, "no statement `... := mtls.NewTLSServerContextManager(rawConfig)` in AddOrUpdateListener"
+	}
+	// every assignment to the fields anywhere in the function, and those that are statements of the block before the call
+	total := map[string]int{}
+	before := map[string]int{}
+	classify := func(l string) string {
+		switch {
+		case l == "rawConfig.Inspector":
+			return "insp"
+		case strings.HasPrefix(l, "rawConfig.FilterChains[0].TLS"), l == "rawConfig.FilterChains", l == "rawConfig.FilterChains[0]":
+			return "ctxs"
+		case l == "rawConfig.Name":
+			return "name"
+		}
+		return ""
+	}
+	ast.Inspect(fd.Body, func(n ast.Node) bool {
+		if as, isa := n.(*ast.AssignStmt); isa {
+			for _, l := range as.Lhs {
+				if k := classify(exprFull(l)); k != "" {
+					total[k]++
+				}
+			}
+		}
+		return true
+	})
+	for i, st := range block.List {
+		if as, isa := st.(*ast.AssignStmt); isa && i < callIdx {
+			for _, l := range as.Lhs {
+				if k := classify(exprFull(l)); k != "" {
+					before[k]++
+				}
+			}
+		}
+	}
+	if total["name"] != 0 {
+		ok = false
+	}
+	ctxsBefore = total["ctxs"] > 0 && before["ctxs"] == total["ctxs"]
+	inspBefore = total["insp"] > 0 && before["insp"] == total["insp"]
+	note = fmt.Sprintf("NewTLSServerContextManager reads cfg.{%s}; update branch: TLS context assignments %d (before the manager call, same block: %d), inspector assignments %d (before: %d)",
+		strings.Join(rs, ","), total["ctxs"], before["ctxs"], total["insp"], before["insp"])
+	return ctxsBefore, inspBefore, ok, note
 }
 
 // resumeVerifiesSwitch reads pkg/mtls/crypto/tls: processCertsFromClient verifies the chain it is given whatever its origin -
